@@ -16,7 +16,7 @@
 //
 // Failure kinds: optimize-panic, entrypoint-removed, dangling-ref,
 // dup-param (a code block of the optimized grammar would receive one label
-// twice), missing-param, not-fixpoint, accepts-differ, prefix-differs,
+// twice), missing-param, accepts-differ, prefix-differs,
 // events-differ; copy-shared and harness-panic are defects of the harness.
 //
 // Known defects of the optimizer are avoided unless lifted (-lift name,name
@@ -72,9 +72,11 @@ type item struct {
 	fails     []outcome
 	sample    string
 	// the (original, optimized) pair for the verified validator, and how to file a rejection
-	optv     string
-	optvFail func(detail string) outcome
-	hasTR    bool
+	optv string
+	// optimizing the optimized grammar changes it again (an observation, not a failure)
+	notFixpoint bool
+	optvFail    func(detail string) outcome
+	hasTR       bool
 }
 
 var detRuns = 6
@@ -156,6 +158,9 @@ func main() {
 		rep.KindHistogram("node_kinds_before", it.before[:])
 		rep.KindHistogram("node_kinds_after", it.after[:])
 		rep.Count("optimizer", "rules_removed", it.removed)
+		if it.notFixpoint {
+			rep.Count("optimizer", "second_run_changes_the_result", 1)
+		}
 		rep.Count("generator", "wf_retries", it.retries)
 		rep.Count("runs", "compared", it.runs)
 		rep.Count("runs", "accepted", it.accepted)
@@ -422,8 +427,9 @@ func evaluate(seed int64, i, k int, lf lifts) (it *item) {
 		fail("optimize-panic", "second run: "+msg, nil)
 		static = true
 	} else if a, b := neutralDump(g2), neutralDump(g3); a != b {
-		fail("not-fixpoint", firstDiff(b, a), nil)
-		static = true
+		// Not a failure: C09 asks that the optimized grammar means what the original means, not that the optimizer
+		// reaches a fixpoint in one call (an optimizer that decides by reference counts need not). Counted only.
+		it.notFixpoint = true
 	}
 	if static {
 		return it
